@@ -2,6 +2,7 @@
    the proof files; the driver pins the statements with [Check] and prints the
    assumptions on every run.  (Generated together with props/C17.json.) *)
 From Yv Require Import Common.Base C17.Model C17.Spec C17.PLex C17.PMeasure C17.PSim C17.Proofs C17.PChain C17.PTok C17.Examples.
+From Yv Require Import C17.GenTie Gen.Gen_Keywords.
 
 (* alias substitution in the model terminates for every alias table (self- and mutually recursive included) and every command text: the fuel computed from the input never runs out *)
 Theorem alias_terminates : forall (t : table) (line : str), model_run t line <> ROutOfFuel.
@@ -103,6 +104,19 @@ Proof. exact lex_word_start. Qed.
 Theorem literal_word_has_no_blank : forall l lx nm, lex l = inl lx -> lx_lit lx = Some nm -> forall i c, (i < length (lx_tok lx))%nat -> nth_error l (length (lx_gap lx) + i) = Some c -> is_blank c = false.
 Proof. exact lex_lit_nonblank. Qed.
 
+(* TIE BY TRANSLATION: the reserved words of the model are those of
+   yash-syntax/src/parser/lex/keyword.rs as it is now (translator/keywords.py) *)
+Theorem keyword_table_is_source_table :
+  map (fun p => (fst p, keyword_index (snd p))) keyword_table = gen_keyword_from_str.
+Proof. exact keyword_table_is_source_table. Qed.
+Theorem keyword_of_is_source_lookup : forall s,
+  option_map keyword_index (keyword_of s) = assoc_gen gen_keyword_from_str s.
+Proof. exact keyword_of_is_source_lookup. Qed.
+Theorem keyword_index_injective : forall a b, keyword_index a = keyword_index b -> a = b.
+Proof. exact keyword_index_injective. Qed.
+Theorem keyword_index_covers : forall n, (n < gen_keyword_count)%N -> exists k, keyword_index k = n.
+Proof. exact keyword_index_covers. Qed.
+
 Print Assumptions alias_terminates.
 Print Assumptions measure_decreases.
 Print Assumptions measure_initial.
@@ -128,3 +142,7 @@ Print Assumptions oracle_accepts_model.
 Print Assumptions word_followed_by_delimiter.
 Print Assumptions word_starts_with_nondelimiter.
 Print Assumptions literal_word_has_no_blank.
+Print Assumptions keyword_table_is_source_table.
+Print Assumptions keyword_of_is_source_lookup.
+Print Assumptions keyword_index_injective.
+Print Assumptions keyword_index_covers.
